@@ -13,6 +13,7 @@ import (
 	"net/http"
 	"runtime"
 	"strings"
+	"time"
 
 	sse "github.com/tmaxmax/go-sse"
 )
@@ -174,9 +175,13 @@ type countingReader struct {
 	worst     int
 	maxReq    int
 	eofWith   bool
+	over      bool
 }
 
 func (c *countingReader) Read(p []byte) (int, error) {
+	if c.over {
+		return 0, io.EOF
+	}
 	if len(p) > c.maxReq {
 		c.maxReq = len(p)
 	}
@@ -274,7 +279,8 @@ func cmdScan(args []string) {
 					}
 					func() {
 						defer func() { pn = recover() }()
-						sse.Read(rd, cfg)(func(e sse.Event, er error) bool {
+						seq := sse.Read(rd, cfg)
+						seq(func(e sse.Event, er error) bool {
 							if er != nil {
 								err = er
 								return true
@@ -283,13 +289,17 @@ func cmdScan(args []string) {
 							delivered = len(evs)
 							return true
 						})
+						// "Read never panics": also not when the sequence is ranged over once more
+						rd.over = true // (the stream was read: the second pass meets an exhausted reader)
+						n2 := 0
+						seq(func(sse.Event, error) bool { n2++; return n2 < 1000 })
 					}()
 				case "conn":
 					var buf []byte
 					if b.Cfg.InitCap > 0 {
 						buf = make([]byte, 0, b.Cfg.InitCap)
 					}
-					co := runConnCount(rd, buf, scMax(b.Cfg.Max), &delivered)
+					co := runConnCount(rd, buf, scMax(b.Cfg.Max), &delivered, (b.Limit+len(b.Stream.Units)+b.Stream.Tail.N+len(cname))%2 == 1)
 					evs, err, pn = co.evs, co.err, co.panicked
 				}
 				res.eval(1)
@@ -371,25 +381,58 @@ func cmdScan(args []string) {
 	res.write(*out)
 }
 
-func runConnCount(body io.Reader, buf []byte, maxSize int, delivered *int) (o connOutcome) {
-	defer func() { o.panicked = recover() }()
+// runConnCount reads the stream through a Connection.  With warm, the stream comes on the Connection's second connection (after a
+// first one that delivered one small event and ended): the Buffer settings hold for every connection, not only the first.
+func runConnCount(body io.Reader, buf []byte, maxSize int, delivered *int, warm bool) (o connOutcome) {
+	defer func() {
+		if p := recover(); p != nil {
+			o.panicked = p
+		}
+	}()
+	ctx, cancel := context.WithCancel(context.Background())
+	defer cancel()
+	calls := 0
 	c := &sse.Client{
 		HTTPClient: &http.Client{Transport: rtFunc(func(q *http.Request) (*http.Response, error) {
+			calls++
+			if (warm && calls > 2) || (!warm && calls > 1) {
+				return nil, errDial // the stream is served once (a timer firing together with the cancellation may start one more attempt)
+			}
+			if warm && calls == 1 {
+				return &http.Response{StatusCode: 200, Body: io.NopCloser(strings.NewReader("data:warmup\n\n")), Header: http.Header{}, Request: q}, nil
+			}
 			return &http.Response{StatusCode: 200, Body: io.NopCloser(body), Header: http.Header{}, Request: q}, nil
 		})},
 		ResponseValidator: sse.NoopValidator,
 		Backoff:           sse.Backoff{MaxRetries: -1},
 	}
-	q, _ := http.NewRequestWithContext(context.Background(), http.MethodGet, "http://verif.invalid/", http.NoBody)
+	var lastErr error
+	if warm {
+		c.Backoff = sse.Backoff{InitialInterval: time.Microsecond, Jitter: -1}
+		n := 0
+		c.OnRetry = func(err error, _ time.Duration) {
+			if n++; n == 2 {
+				lastErr = err // how the second connection ended
+				cancel()
+			}
+		}
+	}
+	q, _ := http.NewRequestWithContext(ctx, http.MethodGet, "http://verif.invalid/", http.NoBody)
 	cn := c.NewConnection(q)
 	if buf != nil || maxSize > 0 {
 		cn.Buffer(buf, maxSize)
 	}
 	cn.SubscribeToAll(func(e sse.Event) {
+		if warm && e.Data == "warmup" && len(o.evs) == 0 && calls == 1 {
+			return
+		}
 		o.evs = append(o.evs, ev{e.LastEventID, e.Type, e.Data})
 		*delivered = len(o.evs)
 	})
 	o.err = cn.Connect()
+	if warm && lastErr != nil {
+		o.err = lastErr
+	}
 	var ce *sse.ConnectionError
 	if errors.As(o.err, &ce) {
 		o.err = ce.Err
